@@ -29,7 +29,7 @@ m = {
         "guard": "DSPLIB_VERIF",
         "enable": "checks configure /repo's working tree with cmake into /verif/.work/lib-<cfg> with -DCMAKE_CXX_FLAGS=-DDSPLIB_VERIF (plus sanitizer flags for the asan/tsan configurations)",
         "baseline_off_cmd": "sh tools/baseline_off.sh",
-        "source_commits": [],
+        "source_commits": ["379f83a"],
         "add_only": True,
     },
     "engines": [{
